@@ -40,3 +40,32 @@ Example m2_expr :
   layout m2 = [None; Some {| p_head := 1; p_off := 0 |}; Some {| p_head := 1; p_off := 1 |}] /\
   image (fun _ => 0%Z) (fun _ => 0%Z) m2 1 = map Some [1; 68; 35]%Z /\ sec_alloc m2 1 = 8.
 Proof. vm_compute. repeat split; reflexivity. Qed.
+
+(* ---- memory after the writes: the hypotheses of memory_after_writes are satisfiable *)
+Definition lab0 : nat -> Z := fun _ => 0%Z.
+
+Example m1_blocks : blocks_disjoint base1 m1.
+Proof.
+  intros h1 h2 Hne H1 H2.
+  assert (A : forall h, place_of m1 h = Some {| p_head := h; p_off := 0 |} -> h = 0 \/ h = 3 \/ h = 6).
+  { intros h H. do 7 (destruct h as [|h]; [vm_compute in H; try discriminate; auto|]).
+    destruct h; vm_compute in H; discriminate. }
+  destruct (A _ H1) as [|[|]], (A _ H2) as [|[|]]; subst; try contradiction;
+    vm_compute; first [left; discriminate | right; discriminate].
+Qed.
+
+Example m1_writes_once : NoDup (map w_idx (item_writes base1 lab0 m1)).
+Proof. vm_compute. repeat (constructor; [simpl; intuition discriminate|]). constructor. Qed.
+
+(* written back to front, the result is the same: byte 12 of section 0 is the u8 255, the ref at
+   section 3 offset 8 holds 4100 = 0x1004, the byte after the last item of section 0 is untouched *)
+Example m1_memory :
+  let ws := rev (item_writes base1 lab0 m1) in
+  let m := apply_writes ws (fun _ => None) in
+  m 4108%Z = Some (Some 255%Z) /\ m 8200%Z = Some (Some 4%Z) /\ m 8201%Z = Some (Some 16%Z) /\
+  m 4112%Z = None /\ m 4111%Z = Some (Some 0%Z).
+Proof. vm_compute. repeat split; reflexivity. Qed.
+
+(* sections hold exactly their members, items do not overlap *)
+Example m1_members : length (members m1 0) = 3 /\ length (members m1 3) = 2 /\ length (members m1 6) = 1.
+Proof. vm_compute. repeat split; reflexivity. Qed.
